@@ -143,10 +143,12 @@ def mini_model(prov, req, inj, mc):
 
 PROV_OPTS = [(['hal', 'hal2'], ['NONE', 'ALL']), (['hal', 'hal2'], ['ALL', 'NONE']),
              (['hal', 'hal2'], ['NONE', ['hal', 'hal2']]), (['a', 'bb', 'ccc'], [['a', 'bb', 'ccc'], 'NONE']),
-             (['a', 'bb', 'ccc'], ['NONE', ['ccc', 'a', 'bb']])]
+             (['a', 'bb', 'ccc'], ['NONE', ['ccc', 'a', 'bb']]), (['pX', 'Px'], ['NONE', ['pX', 'Px']])]
 REQ_OPTS = [(['x', 'y', 'z'], [['x', 'y'], 'REMAINING']), (['x', 'y', 'z'], ['REMAINING', ['x', 'y']]),
             (['x', 'y', 'z'], [['x'], ['y', 'z']]), (['x', 'y', 'z'], [['x', 'y', 'z'], 'NONE']),
-            (['r1', 'r2'], ['NONE', ['r1', 'r2']]), (['r1', 'r2'], ['NONE', 'ALL'])]
+            (['r1', 'r2'], ['NONE', ['r1', 'r2']]), (['r1', 'r2'], ['NONE', 'ALL']),
+            # names that are equal under case folding / differ only in length: tie-breaking of "clever" sort keys
+            (['aB', 'Ab', 'ab_'], [['aB', 'Ab'], 'REMAINING']), (['aB', 'Ab', 'ab_'], ['NONE', ['Ab', 'ab_', 'aB']])]
 
 
 def configurations():
